@@ -33,6 +33,9 @@ func GenE2E(t *rapid.T) E2ECase {
 	for i := 0; i < n; i++ {
 		c.Entries = append(c.Entries, EntrySpec{NL: lens.Draw(t, "nl")})
 	}
+	if n > 0 && rapid.IntRange(0, 3).Draw(t, "huge") == 0 {
+		c.Entries[rapid.IntRange(0, n-1).Draw(t, "hugeat")].NL = rapid.SampledFrom([]int{8150, 8200, 9000, 20000, 60000}).Draw(t, "hugelen")
+	}
 	c.Batch = rapid.IntRange(0, 5).Draw(t, "batch")
 	c.Slack = rapid.OneOf(rapid.SampledFrom([]int{0, 0, 1, 2}), rapid.IntRange(0, 150), rapid.IntRange(0, 70000)).Draw(t, "slack")
 	c.Rendezvous = rapid.Bool().Draw(t, "rendezvous")
@@ -136,6 +139,9 @@ func RunE2E(c E2ECase) harn.Result {
 	}
 	if c.Slack <= 2 {
 		res.Classes = append(res.Classes, "msize_tight")
+	}
+	if maxEnc > 8192 {
+		res.Classes = append(res.Classes, "entry_over_8k")
 	}
 	return res
 }
